@@ -205,6 +205,21 @@ func makeIntrinsics() map[string]intrinsicFn {
 		return fr.p.tc.Ite(a[0].(*Term), a[1].(*Term), a[2].(*Term))
 	}
 	m[apiName("Yield")] = func(fr *frame, a []value) value { fr.g.yield("yield", fr.callpos); return nil }
+	m[apiName("Quiesce")] = func(fr *frame, a []value) value {
+		fr.g.park(&waitOp{kind: wQuiesce, opName: "quiesce", pos: fr.callpos})
+		fr.g.logStep("quiesce", fr.callpos, 0)
+		fr.g.wait = &waitOp{kind: wRunnable}
+		return nil
+	}
+	m[apiName("EnvPoint")] = func(fr *frame, a []value) value {
+		name := argStr(a[0], "env point name")
+		fr.g.park(&waitOp{kind: wYield, opName: "envpoint", pos: fr.callpos})
+		s := fr.p.sched
+		s.trace = append(s.trace, schedStep{G: fr.g.id, Op: "envpoint", Pos: name, UPos: name})
+		return nil
+	}
+	m[apiName("Point")] = func(fr *frame, a []value) value { return nil }
+	m[apiName("OnModelEvent")] = func(fr *frame, a []value) value { return nil }
 	m[apiName("AtomicBegin")] = func(fr *frame, a []value) value { fr.g.atomic++; return nil }
 	m[apiName("AtomicEnd")] = func(fr *frame, a []value) value { fr.g.atomic--; return nil }
 	m[apiName("GoEnv")] = func(fr *frame, a []value) value {
@@ -318,6 +333,34 @@ func makeIntrinsics() map[string]intrinsicFn {
 		defer func() { o.mu.locked = false; o.done = true }()
 		p.call(fr, fr.callpos, a[1], nil)
 		return nil
+	}
+	for _, ty := range []string{"Int32", "Int64", "Uint32", "Uint64"} {
+		ty := ty
+		m["sync/atomic.Add"+ty] = func(fr *frame, a []value) value {
+			addr := a[0].(*value)
+			fr.g.yield("atomic.Add", fr.callpos)
+			nv := fr.p.tc.Bin(OpAdd, load(addr).(*Term), a[1].(*Term))
+			store(addr, nv)
+			return nv
+		}
+		m["sync/atomic.Load"+ty] = func(fr *frame, a []value) value {
+			fr.g.yield("atomic.Load", fr.callpos)
+			return load(a[0].(*value))
+		}
+		m["sync/atomic.Store"+ty] = func(fr *frame, a []value) value {
+			fr.g.yield("atomic.Store", fr.callpos)
+			store(a[0].(*value), a[1])
+			return nil
+		}
+		m["sync/atomic.CompareAndSwap"+ty] = func(fr *frame, a []value) value {
+			addr := a[0].(*value)
+			fr.g.yield("atomic.CAS", fr.callpos)
+			if fr.p.branch(fr.p.tc.Eq(load(addr).(*Term), a[1].(*Term))) {
+				store(addr, a[2])
+				return fr.p.tc.True()
+			}
+			return fr.p.tc.False()
+		}
 	}
 	m["runtime.SetFinalizer"] = func(fr *frame, a []value) value { return nil }
 	m["runtime.Gosched"] = func(fr *frame, a []value) value { fr.g.yield("Gosched", fr.callpos); return nil }
